@@ -13,6 +13,7 @@
 #include "vsched.h"
 #include "vx.h"
 #include <pthread.h>
+#include <errno.h>
 #include <semaphore.h>
 #include <stdio.h>
 #include <stdlib.h>
@@ -21,6 +22,7 @@
 int __real_pthread_create(pthread_t *, const pthread_attr_t *, void *(*)(void *), void *);
 int __real_pthread_join(pthread_t, void **);
 void __real_pthread_exit(void *) __attribute__((noreturn));
+int __real_pthread_tryjoin_np(pthread_t, void **);
 
 enum { UNUSED = 0, RUNNABLE, BLOCKED, DONE };
 struct th { pthread_t real; sem_t go; int state, join_target; void *(*fn)(void *); void *arg; };
@@ -113,6 +115,21 @@ int __wrap_pthread_join(pthread_t t, void **ret) {
   if (k < 0) return __real_pthread_join(t, ret);
   while (T[k].state != DONE) { T[cur].state = BLOCKED; T[cur].join_target = k; yield_forced(); }
   return __real_pthread_join(t, ret);
+}
+
+/* polling join ("make waiting visible"): a finished target is joined; otherwise the answer EBUSY is given after the caller has
+ * handed the processor to another runnable thread (a forced yield, free of charge and a choice point when several can run), so
+ * a loop that polls its workers cannot spin for ever under the cooperative scheduler and every completion order it can
+ * observe is still reachable.  The caller stays runnable: it continues when the others choose it or finish. */
+int __wrap_pthread_tryjoin_np(pthread_t t, void **ret) {
+  if (!active || vs_free_run) return __real_pthread_tryjoin_np(t, ret);
+  int k = -1;
+  for (int i = 1; i < nT; i++) if (T[i].state != UNUSED && pthread_equal(T[i].real, t)) k = i;
+  if (k < 0) return __real_pthread_tryjoin_np(t, ret);
+  if (T[k].state == DONE) return __real_pthread_join(t, ret);
+  int others = 0; for (int i = 0; i < nT; i++) if (T[i].state == RUNNABLE && i != cur) others++;
+  if (others) yield_forced();
+  return EBUSY;
 }
 
 void __wrap_pthread_exit(void *ret) {
